@@ -6,7 +6,7 @@ from .common import Exc
 from .oracle_env import env_for
 from .lru_common import call
 
-THEOREMS = ["C11_match", "C11_longest", "C11_none", "C11_len_iter",
+THEOREMS = ["C11_match", "C11_longest", "C11_none", "C11_len_iter", "C11_canonicalized_same_key", "C11_normalized_same_key", "C11_fingerprinted_same_key", "C11_fingerprinted_key_case",
             "(variant tries: equal canonical / normalized / fingerprinted strings => same key — checked on the implementation, partial)"]
 REGEXES = ["PORT_SPLITTER", "SERIALIZED_LRU_SPLITTER_RE", "PROTOCOL_RE"]
 
